@@ -298,4 +298,11 @@ Section Affine.
         eapply is_bij_inj; eauto.
   Qed.
 
+  (* the table form used for execution is the model *)
+  Lemma diffusion_from_values_ok n fexp fsqrt w (dist : mat F) i j :
+    diffusion_matrix fexp fsqrt w n dist i j =
+    diffusion_from_values n (diff_K0 fexp w dist)
+      (fun t => fsqrt (colsum n (diff_K1 n (diff_K0 fexp w dist)) t)) i j.
+  Proof. reflexivity. Qed.
+
 End Affine.
